@@ -343,7 +343,11 @@ where
     let mut endpoint = quinn::Endpoint::client(SocketAddrV4::new(Ipv4Addr::UNSPECIFIED, 0).into())?;
     #[cfg(octo_squirrel_verif)]
     let mut endpoint = octo_squirrel::verif::quic::client_endpoint(SocketAddrV4::new(Ipv4Addr::UNSPECIFIED, 0).into())?;
-    let quic_client_config = quinn::ClientConfig::new(Arc::new(QuicClientConfig::try_from(tls_config)?));
+    let mut quic_client_config = quinn::ClientConfig::new(Arc::new(QuicClientConfig::try_from(tls_config)?));
+    // a relayed connection may stay silent for longer than quic's 30 s idle timeout: keep it alive like the tcp transports do
+    let mut transport_config = quinn::TransportConfig::default();
+    transport_config.keep_alive_interval(Some(Duration::from_secs(10)));
+    quic_client_config.transport_config(Arc::new(transport_config));
     endpoint.set_default_client_config(quic_client_config);
     let server_name = if let Some(server_name) = &config.server_name { server_name } else { &host.to_owned() };
     let conn = endpoint.connect(format!("{host}:{port}").parse()?, server_name)?.await?;
